@@ -100,8 +100,8 @@ Definition C41_oracle_ok (c : C41_case) : bool :=
       else match c_out c with OGarbage => false | _ => true end
   end.
 
-(* classes of recorded defects: 1 bounds dropped, 2 annotations of a multi-declarator member
-   reach the first name only, 3 array dimensions after the first dropped, 4 split
+(* classes of recorded defects: 1 bounds dropped, (2 retired: fixed by 7270bfe), 3 array
+   dimensions after the first dropped, 4 split
    #[dust_dds] attributes of which the derive reads the first.  A failing case belongs to a
    class only if the structure is preserved once everything the classes PRESENT in its
    declaration can lose is forgotten. *)
@@ -110,11 +110,10 @@ Definition C41_known (c : C41_case) : N :=
   | InSpec l, OItems items =>
       let defs := preprocess l in
       let k1 := known_bounds defs in
-      let k2 := known_multi_annot defs in
       let k3 := known_multi_dim defs in
       let k4 := known_split defs in
-      if supported defs && structure_preserved_upto k1 k3 (k2 || k4) defs items then
-        if k1 then 1%N else if k2 then 2%N else if k3 then 3%N else if k4 then 4%N else 0%N
+      if supported defs && structure_preserved_upto k1 k3 k4 defs items then
+        if k1 then 1%N else if k3 then 3%N else if k4 then 4%N else 0%N
       else 0%N
   | _, _ => 0%N
   end.
@@ -137,9 +136,8 @@ Definition C41d_oracle_ok (c : C41d_case) : bool :=
 
 Definition C41d_known (c : C41d_case) : N :=
   let defs := preprocess (d_in c) in
-  let k2 := known_multi_annot defs in
   let k4 := known_split defs in
   let k5 := known_id_nonmutable defs in
-  if descriptions_agree (k2 || k4) k5 defs (d_obs c) then
-    if k2 then 2%N else if k4 then 4%N else if k5 then 5%N else 0%N
+  if descriptions_agree k4 k5 defs (d_obs c) then
+    if k4 then 4%N else if k5 then 5%N else 0%N
   else 0%N.
